@@ -339,6 +339,38 @@ func pointerOffsetBuffers() [][]byte {
 	return out
 }
 
+// labelEdgeBuffers: pointers whose target sits at the very end of the buffer — the last octet, the first octet past
+// the end (offset == length), one further — and at the pointer itself and its neighbours, after 0..3 complete names
+// and followed or not by another name; and names in presentation format (dotted ASCII text) where wire format belongs.
+func labelEdgeBuffers() [][]byte {
+	var out [][]byte
+	names := [][]byte{{3, 'a', 'b', 'c', 0}, {1, 'x', 2, 'y', 'z', 0}, {5, 'h', 'e', 'l', 'l', 'o', 3, 'o', 'r', 'g', 0}}
+	for n := 0; n <= 3; n++ {
+		var pre []byte
+		for i := 0; i < n; i++ {
+			pre = append(pre, names[i%len(names)]...)
+		}
+		for _, open := range [][]byte{nil, {3, 'a', 'b', 'c'}, {1, 'w'}} { // labels of the name that ends in the pointer
+			for _, tail := range [][]byte{nil, {2, 'z', 'z', 0}, {0}} {
+				pos := len(pre) + len(open)
+				total := pos + 2 + len(tail)
+				for _, off := range []int{0, pos - 1, pos, pos + 1, pos + 2, total - 1, total, total + 1} {
+					if off < 0 || off > 0x3fff {
+						continue
+					}
+					b := append(append(append([]byte{}, pre...), open...), 0xC0|byte(off>>8), byte(off))
+					out = append(out, append(b, tail...))
+				}
+			}
+		}
+	}
+	for _, txt := range []string{"host.example.com", "a.b", "example.com.", "xn--bcher-kva.example", "A-1.b-2.C3", "localhost", "a.b.c.d.e.f.g.h", "h.example"} {
+		out = append(out, []byte(txt))
+		out = append(out, append([]byte{3, 'w', 'w', 'w', 0}, txt...))
+	}
+	return out
+}
+
 // labelCumulativeBuffers: many names that are each well within the 255-octet limit but add up far beyond it — ended by
 // a root octet, by a pointer to one shared suffix, or alternating — so that a length counter that survives from one
 // name to the next (in any of the ways a name can end) rejects a valid list. STRICT by construction.
